@@ -7,9 +7,9 @@ CRYPTO_ASSUME = 'SHA-1/SHA-256/HMAC/AES-CTR/DSA are modelled by Lean re-implemen
 PROPS = {
     'C17': dict(
         module='Props.C17', level='proof',
-        profiles=dict(quick=[('pure', 6000, 1)], thorough=[('pure', 40000, 8)]),
+        profiles=dict(quick=[('pure', 6000, 1), ('keyfile', 150, 1)], thorough=[('pure', 40000, 8), ('keyfile', 2000, 4)]),
         explanation='round-trip theorems over all values (Props.C17); model tied to the Go (de)serialisers by differential execution of generated and mutated structures',
-        assumptions=['field lengths < 2^32 (TLV < 2^16) as explicit hypotheses', 'key-file (s-expression) round trip: see Props.C17 notes']),
+        assumptions=['field lengths < 2^32 (TLV < 2^16) as explicit hypotheses', 'key file: account names without a double quote, protocol names of symbol characters (exact condition: Account.wellFormed)']),
     'C14': dict(
         module='Props.C14', level='proof',
         profiles=dict(quick=[('pure', 4000, 1), ('frag', 12, 1)], thorough=[('pure', 30000, 4), ('frag', 60, 8)]),
@@ -82,9 +82,9 @@ PROPS = {
         assumptions=['soundness of the zero-knowledge proofs against non-degenerate cheating is computational: covered by generated inputs only', 'known finding: OTRv2 accepts degenerate group elements (test-pinned)']),
     'C13': dict(
         module='Props.C13', level='proof',
-        profiles=dict(quick=[('parse', 150, 1), ('life', 25, 1)], thorough=[('parse', 1500, 8), ('life', 300, 8), ('tags', 100, 2), ('frag', 40, 2)]),
+        profiles=dict(quick=[('parse', 150, 1), ('life', 25, 1), ('keyfile', 150, 1)], thorough=[('parse', 1500, 8), ('life', 300, 8), ('keyfile', 2000, 4), ('tags', 100, 2), ('frag', 40, 2)]),
         explanation='total model with explicit panic outcomes; theorems: complete list of panic sites reachable from a data message, no panic under the session invariants, allocation bound of ExtractMPIs (Props.C13); Go harness runs every public parser and Receive in every conversation state on structured/mutated/raw input under recover with time and allocation measurement, a usability probe afterwards, and fails or shortens the k-th randomness read for every k',
-        assumptions=['s-expression / key-file reader: see the keyfile profile (DESIGN §7 C13)', 'Go runtime behaviour (stack, GC) is observed, not modelled']),
+        assumptions=['the key-file reader is run in a worker process so that a stack overflow or hang is observed rather than fatal', 'Go runtime behaviour (stack, GC) is observed, not modelled']),
     'C08': dict(
         module='Props.C08', level='proof',
         profiles=dict(quick=[('mem', 20, 1)], thorough=[('mem', 150, 8)]),
